@@ -28,6 +28,7 @@ DETECTION = [0.0, 0.140625]                  # how long after the break the pend
 BACKOFFS = [0.5, 0.84375]                    # random.uniform(0.5, 10) in _tick: two values with different phase to the 0.1 s tick grid
 STOP_OFFSETS = [0.046875, 0.171875, 0.421875, 0.671875, 0.921875, 1.296875, 1.796875, 2.546875]   # run stop, seconds after the fault window opens
 ARM_TIMES = [0.640625, 0.796875, 1.015625]   # when the fault window opens (run starts at 0.5)
+METHOD_LATENCIES = [0.03125, 5.53125]          # acknowledgement of a catch-up round's MethodMsg: short / longer than the 5 s buffer_messages period
 HORIZON = 40.0
 
 
@@ -101,6 +102,10 @@ class _Env:
         self.n_back = 0
         self.n_det = 0
         self.in_flight = 0
+        self.method_bits_left = 0
+        self.n_method_bits = 0
+        self.method_lat_left = 0
+        self.n_method_lat = 0
         self.max_lat_draws = 2
         self.max_det_draws = 1
         self.max_back_draws = 1
@@ -114,6 +119,24 @@ class _Env:
         self.n_send_bits += 1
         with tracing(self.sym):
             return True if self.sym.bool(f"break_at_send{self.n_send_bits}") else False
+
+    def method_breaks_now(self):
+        """Does the connection break just before this MethodMsg (the message that opens every catch-up round)?"""
+        if not self.armed or self.method_bits_left <= 0:
+            return False
+        self.method_bits_left -= 1
+        self.n_method_bits += 1
+        with tracing(self.sym):
+            return True if self.sym.bool(f"break_at_method_msg{self.n_method_bits}") else False
+
+    def method_latency(self):
+        """Acknowledgement latency of a MethodMsg: short, or longer than the 5 s period of buffer_messages."""
+        if not self.armed or self.method_lat_left <= 0:
+            return LATENCIES[0]
+        self.method_lat_left -= 1
+        self.n_method_lat += 1
+        with tracing(self.sym):
+            return METHOD_LATENCIES[self.sym.index(f"method_latency{self.n_method_lat}", len(METHOD_LATENCIES))]
 
     def connect_fails(self):
         if not self.armed or self.conn_bits_left <= 0:
@@ -212,14 +235,15 @@ def _make_parts(env):
             message.engine_id = self._engine_id or "engine-1"
             self.assign_sequence_number(message)
             loop = asyncio.get_running_loop()
-            if self.up and env.breaks_now():
+            is_method = env.msgs[env.by_id[id(message)]]["kind"] == "method" if id(message) in env.by_id else False
+            if self.up and (env.breaks_now() or (is_method and env.method_breaks_now())):
                 self._break(env.detection())
             env.event("attempt", message, message.sequence_number)
             fut = loop.create_future()
             if self.up:
                 env.event("deliver", message, message.sequence_number)
                 self.pending.append(fut)
-                lat = env.latency()
+                lat = env.method_latency() if is_method and env.method_lat_left > 0 else env.latency()
 
                 def ack():
                     if not fut.done():
@@ -302,6 +326,8 @@ def _scenario(sym):
     env.max_lat_draws = sh.get("latency_draws", 2)
     env.max_det_draws = sh.get("detection_draws", 1)
     env.max_back_draws = sh.get("backoff_draws", 1)
+    env.method_bits_left = sh.get("method_bits", 0)
+    env.method_lat_left = sh.get("method_latency_draws", 0)
     arm_at = ARM_TIMES[sh["arm"]]
     stop_at = arm_at + STOP_OFFSETS[sh["stop"]]
     facts = {"reconnected_with_buffer": [], "states": [], "end_state": None, "end_buffer": None, "quiescent_at": None,
@@ -502,11 +528,19 @@ def harness(sym):
 def _shards(tier):
     if tier == "quick":
         return [{"arm": a, "stop": s, "send_bits": 3, "connect_bits": 1, "sparse": True, "latency_draws": 2, "detection_draws": 1, "backoff_draws": 1}
-                for a in range(2) for s in range(len(STOP_OFFSETS))]
+                for a in range(2) for s in range(len(STOP_OFFSETS))] + _method_shards(tier)
     return ([{"arm": a, "stop": s, "send_bits": 4, "connect_bits": 2, "sparse": True, "latency_draws": 2, "detection_draws": 2, "backoff_draws": 2}
              for a in range(len(ARM_TIMES)) for s in range(len(STOP_OFFSETS))]
             + [{"arm": 1, "stop": s, "send_bits": 3, "connect_bits": 1, "sparse": False, "latency_draws": 2, "detection_draws": 1, "backoff_draws": 1}
-               for s in range(len(STOP_OFFSETS))])
+               for s in range(len(STOP_OFFSETS))] + _method_shards(tier))
+
+
+def _method_shards(tier):
+    """Faults aimed at the MethodMsg that opens every catch-up round (one ordinary break first, to leave steady state)."""
+    stops = [1, 4] if tier == "quick" else range(len(STOP_OFFSETS))
+    return [{"arm": a, "stop": s, "send_bits": 1, "connect_bits": 0, "sparse": True, "latency_draws": 0, "detection_draws": 1, "backoff_draws": 1,
+             "method_bits": 3 if tier == "quick" else 4, "method_latency_draws": 2}
+            for a in range(2 if tier == "quick" else len(ARM_TIMES)) for s in stops]
 
 
 OBLIGATIONS = [Obligation(
@@ -517,7 +551,7 @@ OBLIGATIONS = [Obligation(
     symbolic="for each of the first send attempts after the fault window opens: does the connection break here (symbolic booleans); failure bit of the "
              "connect attempts (symbolic booleans); acknowledgement latency of those sends, failure-detection delay and the reconnect back-off (solver selectors over catalogues of dyadic values placed below / between / above the "
              "runner's own periods 0.1 s, 0.3 s), time of the run stop relative to the fault window and the opening time of the window (shards)",
-    bounds={"quick": "3 break bits + 1 connect-failure bit, 2 latency choices of 3 values, 1 detection-delay choice of 2, 1 back-off choice of 2, 2 window positions x 8 stop offsets, one run (start, stop)",
+    bounds={"quick": "(MethodMsg-aimed shards: 1 break bit, then 3 break bits and 2 latency choices {short, 5.5 s} on the MethodMsg sends that open catch-up rounds) 3 break bits + 1 connect-failure bit, 2 latency choices of 3 values, 1 detection-delay choice of 2, 1 back-off choice of 2, 2 window positions x 8 stop offsets, one run (start, stop)",
             "thorough": "4 break bits + 2 connect-failure bits, 2 latency choices, 2 detection-delay choices, 2 back-off choices, 3 window positions x 8 stop offsets (sparse steady-state message set); "
                         "plus the quick-size fault budget with the full steady-state message set (control state, method state, tags, run log) for 8 stop offsets"},
     assumptions=["virtual-time event loop: the selector never waits, time jumps to the next timer; real asyncio tasks, futures, gather, shield, locks",
